@@ -138,7 +138,7 @@ class FindingRules:
             if kd == "u64":
                 vals = [l["v"]] if l["tag"] == "cmp" else list(l["vs"])
                 if any(query.EMBED["u64"][v] >= 2 ** 63 for v in vals):
-                    ids.append("C17-int-literal-overflow-panic")
+                    ids.append("C02-u64-literal-beyond-i64")
                 if on_disk:
                     ids.append("C02-u64-above-i64max-on-disk")
             if kd == "enum" and on_disk and l["tag"] == "cmp" and l["op"] == "!=" and l["v"] == 4:
@@ -151,8 +151,8 @@ class FindingRules:
         ids = self.triggers(case, kinds, layout)
         if got is None:
             # an error/panic instead of a result is only explained by the literal-overflow panic
-            return ["C17-int-literal-overflow-panic"] if ("C17-int-literal-overflow-panic" in ids and "panic" in (why or "")) else []
-        ids = [i for i in ids if i != "C17-int-literal-overflow-panic"]
+            return ["C02-u64-literal-beyond-i64"] if ("C02-u64-literal-beyond-i64" in ids and "parse_error" in (why or "")) else []
+        ids = [i for i in ids if i != "C02-u64-literal-beyond-i64"]
         if "C02-or-loses-zones-on-disk" in ids and not (set(got) < set(exp)):
             ids.remove("C02-or-loses-zones-on-disk")       # that finding only ever loses rows
         return ids
